@@ -47,6 +47,30 @@ CHECKS = {
             'Trusted: Lean kernel; CPython re (character classes enter as a table, matching of rendered text is oracle-only); '
             'sampling loop not modelled. Two known findings (non-ASCII decimal digits under portable / grep).',
             'DESIGN.md 4 C03'),
+    'C11': ('Lean 4 theorems over a model of the generator\'s decision logic + model/implementation correspondence (partial: running commands, files and Python text are runtime, decided by the oracle)',
+            'Kernel-checked theorems: the generated script contains the two fixed tests, the stream tests asked for and exactly '
+            'one test per reference file, in order, with the comparison its type asks for, and all test names are pairwise '
+            'distinct for every list of file names (the qualifier loop always finds a free name: pigeonhole over injective '
+            'decimal numerals), so no test silently replaces another; the date detector is a total function of the numbers it '
+            'finds and flags exactly the triples one of whose readings is a real calendar date in range (31/02/2020 or 1.2.0 '
+            'cannot crash generation); every comparison in the script is check_strings (C04) and passes on content identical '
+            'to its reference whatever exclusions were generated. The model is tied to test_name, to the def test_ lines of '
+            'really generated scripts and to is_date_like / possible_date. PARTIAL: that generation completes, the script '
+            'compiles, passes when run straight afterwards and leaves every existing file alone is decided by the oracle, which '
+            'runs `python -m tdda.referencetest.gentest` and the generated script as real processes over generated commands.',
+            'Trusted: Lean kernel; shell, file system, chardet, Python compiler, unittest. No open findings; five fixed.',
+            'DESIGN.md 4 C11'),
+    'C12': ('Lean 4 theorems (C04 comparison rule, C11 test plan) + model/implementation correspondence (partial: detection of each change is runtime, decided by the oracle)',
+            'Kernel-checked theorems: every stream asked for and every reference file has a test of its own under a name no '
+            'other test has; each such test is a check_strings comparison that passes exactly when the stated rule holds, so a '
+            'changed line that no generated exclusion excuses, or an added / removed line, makes it fail. The plan is tied to '
+            'the def test_ lines of really generated scripts. PARTIAL: which lines the generator excuses, binary comparison, '
+            'deleted files and exit status are runtime: the oracle generates a script as a real process, then changes the '
+            'command\'s behaviour one output at a time (a character, a line added or removed, a byte, a file no longer produced, '
+            'another exit status), re-runs the script as a real process and demands that the test of that stream / file / status '
+            'fails, and that the script passes again when the change is reverted.',
+            'Trusted: Lean kernel; shell, file system, unittest. No open findings; one fixed.',
+            'DESIGN.md 4 C12'),
     'C13': ('Lean 4 theorems over a model of the rexpy batch pipeline + model/implementation correspondence',
             'Kernel-checked theorems over the same model as C03: every pattern of a batch extraction matches at least one '
             'kept example; there are never more patterns than distinct examples; an input with nothing kept gives no '
